@@ -436,7 +436,10 @@ def write_summary_file_vue(stats, filepath, year=2025, currency_format="${amount
     }
 
     # Assemble final HTML
-    data_script = f'window.spendingData = {json.dumps(spending_data)};'
+    # "<" is written as \\u003c so that no text in the data ("</script>", "<!--") can end
+    # or alter the <script> element the JSON is embedded in
+    data_json = json.dumps(spending_data).replace('<', '\\u003c')
+    data_script = f'window.spendingData = {data_json};'
 
     if not embedded_html:
         # Write separate files for easier development
@@ -468,12 +471,14 @@ def write_summary_file_vue(stats, filepath, year=2025, currency_format="${amount
         )
     else:
         # Embed everything inline (default)
+        # The data goes in last: a description containing '/* JS_PLACEHOLDER */' would
+        # otherwise get the whole JS file spliced into the JSON by a later replace()
         final_html = html_template.replace(
             '/* CSS_PLACEHOLDER */', css_content
         ).replace(
-            '/* DATA_PLACEHOLDER */', data_script
-        ).replace(
             '/* JS_PLACEHOLDER */', js_content
+        ).replace(
+            '/* DATA_PLACEHOLDER */', data_script
         )
 
     # Write output file
